@@ -234,7 +234,18 @@ def _op_call(ctx, op):
         for inv, sig, desc in env0.problems():
             ctx.violate(inv, entry, sig.split("[")[0], f"{entry}: {desc} (plain writable buffers, benign callbacks; the call then raised {oc0[1]!r})")
         ctx.probes.hit("baseline-raise:" + entry)
-        ctx.log.add(ctx.step, "call", entry, "baseline-raise", type(oc0[1]).__name__)
+        # ... and the same holds in the simulated environment: an operation that raises must leave everything intact
+        o2 = dict(opts)
+        o2.pop("raise", None)
+        env1, oc1 = _run_entry(ctx, entry, o2, baseline=False)
+        d = env1.describe()
+        if any(m != "plain" for m in d["modes"].values()) or d["tracked"]:
+            ctx.nontrivial = True
+        for inv, sig, desc in env1.problems():
+            ctx.violate(inv + "-after-raise", entry, sig.split("[")[0], f"{entry}: the call raised {oc1[1]!r:.80} and {desc} (modes {d['modes']})")
+        if oc1[0] == "raise" and ("read-only" in str(oc1[1]) or "WRITEABLE" in str(oc1[1])) and "read-only" not in str(oc0[1]):
+            ctx.violate("readonly-rejected", entry, type(oc1[1]).__name__, f"{entry}: write-protected input rejected: {oc1[1]!r} (modes {d['modes']})")
+        ctx.log.add(ctx.step, "call", entry, "baseline-raise", type(oc0[1]).__name__, oc1[0])
         return
     for inv, sig, desc in env0.problems():
         ctx.violate(inv, entry, sig.split("[")[0], f"{entry}: {desc} (plain writable buffers, benign callbacks)")
